@@ -7,7 +7,8 @@ META = {
                    'interleaving of the two inputs: exactly min(|a|,|b|) pairs per iteration, i-th with i-th, no '
                    'element used twice, stashes cleared at the end of the iteration. split / broadcast: End with '
                    'several downstream blocks / NextStrategy::All delivers every element once per block / to every '
-                   'replica.',
+                   'replica. route: RoutingEnd with uninterpreted predicates: each element goes to the first '
+                   'matching route only, unmatched ones are dropped, markers reach every route.',
     'assumptions': ['no upstream replica starts iteration k+1 before all have ended iteration k'],
     'trusted': ['mirsym MIR executor and its std model table', 'z3 / cvc5'],
 }
@@ -16,4 +17,4 @@ META = {
 def TASKS(tier):
     fan_out = [t for t in end_tasks(tier, 'fan_out', ('routing',))
                if t.params['strategy'] == 'All' or len(t.params['blocks']) > 1]
-    return zip_tasks(tier, 'zip') + fan_out
+    return zip_tasks(tier, 'zip') + fan_out + route_tasks(tier, 'route')
